@@ -22,7 +22,7 @@ value `1 + 2^-52` (`C11_range` therefore keeps its 2^52 hypothesis).
 import BBProofs.Isim
 import BBProofs.IsimErr
 import BBProofs.Fl
-import BBProofs.GenEq
+import BBProofs.GenEq3
 
 namespace BB
 
@@ -193,5 +193,20 @@ theorem C11_code_radius (expf : Rat → Rat) (w : W) (s : Summary) (h : SumOk s)
   rw [gen_radius_ok expf w s h, sub_int_flt]
   cases hx : radiusCompl s.ls s.n <;> simp [radiusFromSum, hx, PV.fop, rnd_one]
 
+
+
+/-- code: on the whole no-wrap range the translated `jt_isim_from_sum` returns a float within 18 units of 2^-53
+(relative) of the exact rational definition -/
+theorem C11_code_ulp (expf : Rat → Rat) (w : W) (ks : List Nat) (n : Nat) (hn : 2 ≤ n) (hk : ∀ k ∈ ks, k ≤ n)
+    (hS : 0 < ks.sum) (hb : n * ks.sum < 2 ^ 64) :
+    ∃ v, BBGen.jt_isim_from_sum expf (PV.arr w ks) (PV.int n) = PV.flt (some v) ∧
+      |v - exactIsim ks n| ≤ 18 * 2 ^ (-53 : ℤ) * exactIsim ks n ∧ 0 ≤ v :=
+  gen_isim_ulp expf w ks n hn hk hS hb
+
+/-- code: every summary with sums bounded by the count, count below 2^53 − 1 and no uint64 wrap-around satisfies the side
+conditions (`SumOk`) of the `*_code_*` theorems -/
+theorem C11_code_side_conditions (s : Summary) (hk : ∀ k ∈ s.ls, k ≤ s.n) (hn : s.n + 1 < 2 ^ 53)
+    (hb : (s.n + 1) * (s.ls.sum + s.ls.length) < 2 ^ 64) : SumOk s :=
+  sumOk_of_consistent s hk hn hb
 
 end BB
